@@ -36,6 +36,7 @@ type Str struct {
 	s      string
 	b      []Sc // non-nil => symbolic bytes (len(b) is the length), s unused
 	opaque bool // result of formatting symbolic data; content must not be inspected
+	nonEmpty bool // (opaque strings) the format has literal text, so the result is known not to be empty
 }
 
 type Struct []Value
@@ -290,7 +291,7 @@ func mkStrBytes(b []Sc) Str {
 
 func strConcat(a, b Str) Str {
 	if a.opaque || b.opaque {
-		return Str{s: a.dbg() + b.dbg(), opaque: true}
+		return Str{s: a.dbg() + b.dbg(), opaque: true, nonEmpty: (a.opaque && a.nonEmpty) || (b.opaque && b.nonEmpty) || (!a.opaque && a.Len() > 0) || (!b.opaque && b.Len() > 0)}
 	}
 	if a.b == nil && b.b == nil {
 		return Str{s: a.s + b.s}
